@@ -414,6 +414,16 @@ class E3Check(Check):
                              [r.gauss(0, 3.0) for _ in range(3)]}
                             for i in range(k)]
                 cases.append(c)
+            # text-precision matrices, one propagating transform with a
+            # general rigid motion
+            for n in (100, 150, 200, 200):
+                c = gen_text_precision_case(r)
+                c["n"], c["dtype"] = n, "text"
+                c["ops"] = [{"op": "transform", "mode": "prop",
+                             "T": [float(x) for x in random_unit_quat(
+                                 r, "uniform")] + [r.gauss(0, 5.0)
+                                                   for _ in range(3)]}]
+                cases.append(c)
             for mode in ("prop", "right", "left"):
                 for n in (60, 200):
                     c = gen_text_precision_case(r)
